@@ -510,7 +510,11 @@ func CheckMain(root, id, tier string, seed uint64) int {
 		}
 		if !confirmed {
 			// never reported as a violation: a violation comes with a replay file that reproduces it
-			unconfirmed = append(unconfirmed, fmt.Sprintf("%s (replay %s)", v, path))
+			// (kept outside replays/ for inspection: the original, unminimised finding)
+			keep := filepath.Join(root, ".build", "unconfirmed")
+			os.MkdirAll(keep, 0o755) //nolint:errcheck
+			kept := writeReplay(keep, name, f)
+			unconfirmed = append(unconfirmed, fmt.Sprintf("%s (kept as %s)", v, kept))
 			os.Remove(path)
 			continue
 		}
